@@ -1,21 +1,1235 @@
-//! Monitor for property C11 (see /verif/DESIGN.md §6).
+//! Monitor for property C11 (see /verif/DESIGN.md §6): TFM<->PL conversion is an idempotent,
+//! font-preserving normalisation for warning-free fonts.
+//!
+//! For a warning-free b0 the real code is run as  b0 -> PL1 -> b1 -> PL2 -> b2  and observed:
+//!   * no warning after the first step, b2 == b1 byte for byte, PL2 == PL1 (see `pl_equal`);
+//!   * File(b0) ~ File(b1) through the crate's public accessors (values through the index tables,
+//!     tags, recipes, parameters, header);
+//!   * the same through our own TFM reader (`rawfont`, calibrated against Knuth's recorded
+//!     TFtoPL outputs in the corpus), including the lig/kern program as the map
+//!     (left, right) -> first matching instruction for every left character and the boundary;
+//!   * `CompiledProgram::compile_from_tfm_file(..).run(word)` gives identical results for both
+//!     fonts on every single character, every ordered pair of the characters involved (with and
+//!     without the left boundary) and sampled triples.
+
+pub mod corpus;
+pub mod gen;
+pub mod plread;
+pub mod rawfont;
+
+use corpus::corpus;
+use rawfont::RawFont;
+use std::collections::{BTreeMap, BTreeSet};
+use tfm::ligkern::{CompiledProgram, RunItem, RunOptions};
 use vcore::*;
 
 pub struct M;
 pub static MONITOR: M = M;
 
+fn hex(b: &[u8]) -> String {
+    let mut s = String::with_capacity(b.len() * 2);
+    for x in b {
+        s.push_str(&format!("{x:02x}"));
+    }
+    s
+}
+
+fn clip(t: &str, n: usize) -> String {
+    if t.len() <= n {
+        return t.to_string();
+    }
+    let mut k = n;
+    while !t.is_char_boundary(k) {
+        k -= 1;
+    }
+    format!("{}... [{} bytes]", &t[..k], t.len())
+}
+
+fn variant_name<T: std::fmt::Debug>(t: &T) -> String {
+    let s = format!("{t:?}");
+    s.split(|c: char| !(c.is_alphanumeric() || c == '_'))
+        .next()
+        .unwrap_or("")
+        .to_string()
+}
+
+fn display_format(k: u64) -> tfm::pl::CharDisplayFormat {
+    match k % 3 {
+        0 => tfm::pl::CharDisplayFormat::Default,
+        1 => tfm::pl::CharDisplayFormat::Ascii,
+        _ => tfm::pl::CharDisplayFormat::Octal,
+    }
+}
+
+// ------------------------------------------------------------------------------------------
+// the view of a font through the crate's public accessors
+
+#[derive(Debug, PartialEq, Eq, Clone)]
+enum TagView {
+    None,
+    Lig,
+    List(u8),
+    Ext(Option<(Option<u8>, Option<u8>, Option<u8>, u8)>),
+}
+
+#[derive(Debug, PartialEq, Eq, Clone)]
+struct CharView {
+    wd: Option<i32>,
+    ht: Option<i32>,
+    dp: Option<i32>,
+    ic: Option<i32>,
+    tag: TagView,
+}
+
+fn file_view(f: &tfm::File) -> BTreeMap<u8, CharView> {
+    let mut m = BTreeMap::new();
+    for (c, d) in &f.char_dimens {
+        let tag = match f.char_tags.get(c) {
+            None => TagView::None,
+            Some(tfm::CharTag::Ligature(_)) => TagView::Lig,
+            Some(tfm::CharTag::List(n)) => TagView::List(n.0),
+            Some(tfm::CharTag::Extension(i)) => TagView::Ext(
+                f.extensible_chars
+                    .get(*i as usize)
+                    .map(|r| (r.top.map(|c| c.0), r.middle.map(|c| c.0), r.bottom.map(|c| c.0), r.rep.0)),
+            ),
+        };
+        m.insert(
+            c.0,
+            CharView {
+                wd: f.widths.get(d.width_index.get() as usize).map(|v| v.0),
+                ht: f.heights.get(d.height_index as usize).map(|v| v.0),
+                dp: f.depths.get(d.depth_index as usize).map(|v| v.0),
+                ic: f.italic_corrections.get(d.italic_index as usize).map(|v| v.0),
+                tag,
+            },
+        );
+    }
+    m
+}
+
+fn file_diff(a: &tfm::File, b: &tfm::File) -> Vec<(String, String)> {
+    let mut d = vec![];
+    let (va, vb) = (file_view(a), file_view(b));
+    let ka: Vec<u8> = va.keys().copied().collect();
+    let kb: Vec<u8> = vb.keys().copied().collect();
+    if ka != kb {
+        d.push(("characters".to_string(), format!("{ka:?} vs {kb:?}")));
+    }
+    for (c, x) in &va {
+        let Some(y) = vb.get(c) else { continue };
+        for (name, p, q) in [("width", x.wd, y.wd), ("height", x.ht, y.ht), ("depth", x.dp, y.dp), ("italic", x.ic, y.ic)] {
+            if p != q {
+                d.push((name.to_string(), format!("char {c}: {p:?} vs {q:?}")));
+            }
+        }
+        if x.tag != y.tag {
+            // a lig tag may legitimately disappear when its program is empty; the behavioural
+            // comparison (run) decides about lig tags
+            let lig_vs_none = matches!((&x.tag, &y.tag), (TagView::Lig, TagView::None) | (TagView::None, TagView::Lig));
+            if !lig_vs_none {
+                d.push(("tag".to_string(), format!("char {c}: {:?} vs {:?}", x.tag, y.tag)));
+            }
+        }
+    }
+    let pa: Vec<i32> = a.params.iter().map(|v| v.0).collect();
+    let pb: Vec<i32> = b.params.iter().map(|v| v.0).collect();
+    if pa != pb {
+        d.push(("params".to_string(), format!("{pa:?} vs {pb:?}")));
+    }
+    let (ha, hb) = (&a.header, &b.header);
+    if ha.checksum != hb.checksum {
+        d.push(("checksum".to_string(), format!("{:?} vs {:?}", ha.checksum, hb.checksum)));
+    }
+    if ha.design_size != hb.design_size {
+        d.push(("design-size".to_string(), format!("{:?} vs {:?}", ha.design_size, hb.design_size)));
+    }
+    // A header of fewer than 18 words has no strings/face; PLtoTF (and this crate) then writes
+    // the defaults (UNSPECIFIED, face 0) - only compare what b0 states.
+    let up = |s: &Option<String>| s.as_ref().map(|s| s.to_ascii_uppercase());
+    if ha.character_coding_scheme.is_some() && up(&ha.character_coding_scheme) != up(&hb.character_coding_scheme) {
+        d.push(("header".to_string(), format!("coding scheme {:?} vs {:?}", ha.character_coding_scheme, hb.character_coding_scheme)));
+    }
+    if ha.font_family.is_some() && up(&ha.font_family) != up(&hb.font_family) {
+        d.push(("header".to_string(), format!("family {:?} vs {:?}", ha.font_family, hb.font_family)));
+    }
+    if ha.face.is_some() && ha.face.map(u8::from) != hb.face.map(u8::from) {
+        d.push(("header".to_string(), format!("face {:?} vs {:?}", ha.face, hb.face)));
+    }
+    if ha.additional_data != hb.additional_data {
+        d.push(("header".to_string(), format!("extra words {:?} vs {:?}", ha.additional_data, hb.additional_data)));
+    }
+    d
+}
+
+// ------------------------------------------------------------------------------------------
+// lig/kern behaviour through the crate's compiler and `run`
+
+fn run_word(p: &CompiledProgram, w: &str, no_left_boundary: bool) -> Vec<RunItem> {
+    let opts = RunOptions {
+        disable_left_boundary: no_left_boundary,
+        right_boundary_override: None,
+    };
+    p.run_with_options(w.chars(), opts).take(64).collect()
+}
+
+struct RunDiff {
+    word: Vec<u8>,
+    left_boundary: bool,
+    b0: Vec<RunItem>,
+    b1: Vec<RunItem>,
+}
+
+struct RunCmp {
+    words: u64,
+    first_diff: Option<String>,
+    diffs: Vec<RunDiff>,
+    total_diffs: u64,
+    replacements: usize,
+}
+
+fn compare_runs(f0: &tfm::File, f1: &tfm::File, rng: &mut Rng, pair_cap: usize) -> Result<RunCmp, String> {
+    let mut f0 = f0.clone();
+    let mut f1 = f1.clone();
+    let (p0, e0) = CompiledProgram::compile_from_tfm_file(&mut f0);
+    let (p1, e1) = CompiledProgram::compile_from_tfm_file(&mut f1);
+    if !e0.is_empty() {
+        return Err(format!("b0 compiles with infinite-loop errors although TFtoPL raised no warning: {e0:?}"));
+    }
+    let mut r = RunCmp {
+        words: 0,
+        first_diff: None,
+        diffs: vec![],
+        total_diffs: 0,
+        replacements: p0.all_pairs_with_replacements().len(),
+    };
+    if !e1.is_empty() {
+        r.first_diff = Some(format!("b1 compiles with infinite-loop errors: {e1:?}"));
+        return Ok(r);
+    }
+    // characters that matter: existing ones, everything named in either compiled program, the
+    // right boundary character
+    let mut s: BTreeSet<u8> = f0.char_dimens.keys().map(|c| c.0).collect();
+    s.extend(f1.char_dimens.keys().map(|c| c.0));
+    let mut keys: BTreeSet<(Option<u8>, u8)> = BTreeSet::new();
+    for p in [&p0, &p1] {
+        for (l, rc) in p.all_pairs_with_replacements() {
+            keys.insert((l.map(|c| c.0), rc.0));
+            if let Some(l) = l {
+                s.insert(l.0);
+            }
+            s.insert(rc.0);
+        }
+    }
+    if let Some(b) = f0.lig_kern_program.right_boundary_char {
+        s.insert(b.0);
+    }
+    if let Some(b) = f1.lig_kern_program.right_boundary_char {
+        s.insert(b.0);
+    }
+    let sv: Vec<u8> = s.iter().copied().collect();
+    let mut check = |w: &str, r: &mut RunCmp| {
+        for nlb in [false, true] {
+            r.words += 1;
+            let a = run_word(&p0, w, nlb);
+            let b = run_word(&p1, w, nlb);
+            if a != b {
+                r.total_diffs += 1;
+                if r.first_diff.is_none() {
+                    r.first_diff = Some(format!(
+                        "word {:?} (left boundary {}): b0 gives {:?}, b1 gives {:?}",
+                        w.chars().map(|c| c as u32).collect::<Vec<_>>(),
+                        if nlb { "off" } else { "on" },
+                        a,
+                        b
+                    ));
+                }
+                if r.diffs.len() < 20_000 {
+                    r.diffs.push(RunDiff {
+                        word: w.chars().map(|c| c as u32 as u8).collect(),
+                        left_boundary: !nlb,
+                        b0: a,
+                        b1: b,
+                    });
+                }
+            }
+        }
+    };
+    let ch = |c: u8| c as char;
+    // every single character: (boundary, c) and (c, boundary)
+    for c in 0..=255u8 {
+        check(&ch(c).to_string(), &mut r);
+    }
+    // every ordered pair of the characters that matter, or (if too many) every pair that has a
+    // replacement in either program plus a sample
+    if sv.len() * sv.len() <= pair_cap {
+        for &a in &sv {
+            for &b in &sv {
+                check(&[ch(a), ch(b)].iter().collect::<String>(), &mut r);
+            }
+        }
+    } else {
+        for (l, rc) in &keys {
+            if let Some(l) = l {
+                check(&[ch(*l), ch(*rc)].iter().collect::<String>(), &mut r);
+            }
+        }
+        for _ in 0..pair_cap.saturating_sub(keys.len()).min(pair_cap / 2) {
+            let a = *rng.pick(&sv);
+            let b = *rng.pick(&sv);
+            check(&[ch(a), ch(b)].iter().collect::<String>(), &mut r);
+        }
+    }
+    // sampled triples and longer words over the characters named in the programs
+    let named: Vec<u8> = {
+        let mut n: BTreeSet<u8> = BTreeSet::new();
+        for (l, rc) in &keys {
+            if let Some(l) = l {
+                n.insert(*l);
+            }
+            n.insert(*rc);
+        }
+        n.into_iter().collect()
+    };
+    if !named.is_empty() {
+        for _ in 0..(pair_cap / 16).clamp(16, 400) {
+            let len = rng.range_usize(3, 6);
+            let w: String = (0..len).map(|_| ch(*rng.pick(&named))).collect();
+            check(&w, &mut r);
+        }
+    }
+    Ok(r)
+}
+
+// ------------------------------------------------------------------------------------------
+// PL comparison
+
+/// PL2 must equal PL1, except for what TFtoPL itself reports about parts of b0 that cannot
+/// survive: the `(COMMENT THIS PART OF THE PROGRAM IS NEVER USED! ...)` lists of unreachable
+/// lig/kern instructions (not a warning in TFtoPL; PLtoTF cannot keep what is inside a comment).
+fn strip_never_used(pl: &str) -> (String, usize) {
+    let mut out = String::with_capacity(pl.len());
+    let mut n = 0;
+    let mut rest = pl;
+    while let Some(pos) = rest.find("(COMMENT THIS PART OF THE PROGRAM IS NEVER USED!") {
+        // cut the whole line indentation + the balanced list + trailing newline
+        let line_start = rest[..pos].rfind('\n').map(|p| p + 1).unwrap_or(0);
+        out.push_str(&rest[..line_start]);
+        let mut depth = 0i32;
+        let mut end = rest.len();
+        for (i, c) in rest[pos..].char_indices() {
+            match c {
+                '(' => depth += 1,
+                ')' => {
+                    depth -= 1;
+                    if depth == 0 {
+                        end = pos + i + 1;
+                        break;
+                    }
+                }
+                _ => {}
+            }
+        }
+        let after = &rest[end..];
+        rest = after.strip_prefix('\n').unwrap_or(after);
+        n += 1;
+    }
+    out.push_str(rest);
+    if n > 0 {
+        // a LIGTABLE that consisted of nothing else is not printed for b1 (no instructions left)
+        out = out.replace("(LIGTABLE\n   )\n", "");
+        // a SKIP over nothing but unreachable steps is printed as (SKIP D 0) - a no-op that b1,
+        // which no longer has those steps, does not need
+        out = out.replace("   (SKIP D 0)\n", "");
+    }
+    (out, n)
+}
+
+/// The differences between PL1 and PL2 that are part of the normalisation itself (all of them
+/// are what Knuth's TFtoPL/PLtoTF do as well) are removed from both texts; everything else -
+/// every character list, the lig table, parameters, header - must then be textually identical.
+///  * `(SEVENBITSAFEFLAG TRUE)`: PLtoTF recomputes the flag (PLtoTF §133), b0 may understate it;
+///  * if b0's header has fewer than the 18 standard words, PLtoTF fills in its defaults
+///    (PLtoTF §70): `(FAMILY UNSPECIFIED)`, `(FACE F MRR)`, `(CODINGSCHEME UNSPECIFIED)`;
+///  * if PL1 reported unreachable lig/kern steps: an empty `(LIGTABLE )` on either side (b1 keeps
+///    one word to carry a boundary character) - the comment itself and `(SKIP D 0)` are removed
+///    from PL1 by `strip_never_used`.
+fn pl_normal_form(pl: &str, had_never_used: bool, short_header: bool) -> String {
+    let mut out = String::with_capacity(pl.len());
+    for line in pl.split_inclusive('\n') {
+        let t = line.trim_end_matches('\n');
+        if t == "(SEVENBITSAFEFLAG TRUE)" {
+            continue;
+        }
+        if short_header && (t == "(FAMILY UNSPECIFIED)" || t == "(FACE F MRR)" || t == "(CODINGSCHEME UNSPECIFIED)") {
+            continue;
+        }
+        out.push_str(line);
+    }
+    if had_never_used {
+        out = out.replace("(LIGTABLE\n   )\n", "");
+    }
+    out
+}
+
+// ------------------------------------------------------------------------------------------
+// the chain
+
+struct ChainStats {
+    b0_len: usize,
+    b1_equals_b0: bool,
+    never_used_comments: usize,
+    run_words: u64,
+    replacements: usize,
+}
+
+enum ChainResult {
+    /// b0 is outside the quantifier (not warning-free)
+    Skipped(&'static str),
+    /// a violation or panic was reported
+    Reported,
+    Held(ChainStats),
+}
+
+fn chain(obs: &mut Obs, rng: &mut Rng, b0: &[u8], fmt_k: u64, how: &dyn Fn() -> Value) -> ChainResult {
+    let fmt = display_format(fmt_k);
+    let witness = |extra: Value| -> Value {
+        json!({"b0": if b0.len() <= 2048 { json!(hex(b0)) } else { json!(format!("{} bytes", b0.len())) },
+               "derived": how(), "display_format": format!("{fmt:?}"), "observed": extra})
+    };
+    macro_rules! guarded {
+        ($what:expr, $e:expr) => {
+            match catch(|| $e) {
+                Ok(v) => v,
+                Err(p) => {
+                    obs.repo_panic(&p, witness(json!({"step": $what})));
+                    return ChainResult::Reported;
+                }
+            }
+        };
+    }
+    // step one: b0 -> PL1, must be warning-free (else outside the quantifier)
+    let o1 = guarded!("b0->PL1", tfm::algorithms::tfm_to_pl(b0, 3, &|_| fmt));
+    let o1 = match o1 {
+        Ok(o) => o,
+        Err(_) => return ChainResult::Skipped("b0-fmt-error"),
+    };
+    let pl1 = match o1.pl_data {
+        Ok(s) => s,
+        Err(_) => return ChainResult::Skipped("b0-rejected-by-reader"),
+    };
+    if !o1.error_messages.is_empty() {
+        return ChainResult::Skipped("b0-has-warnings");
+    }
+    // PL1 -> b1
+    let (b1, w1) = guarded!("PL1->b1", tfm::algorithms::pl_to_tfm(&pl1));
+    if !w1.is_empty() {
+        // Known finding C11-more-than-254-parameters. Trigger (own reader): b0 has more than 254
+        // parameters. Deviation model: PLtoTF's table limit (max_param_words = 254, PLtoTF §93)
+        // is reproduced, so exactly the PARAMETER properties numbered >= 255 draw warnings
+        // (255: "index is too big"; >= 256: small integer too big + index zero).
+        let np = RawFont::parse(b0).map(|r| r.param.len()).unwrap_or(0);
+        if np > 254 {
+            let kinds: Vec<String> = w1.iter().map(|w| variant_name(&w.kind)).collect();
+            let expected = |k: &String| k == "ParameterNumberIsTooBig" || k == "SmallIntegerIsTooBig" || k == "ParameterNumberIsZero";
+            let n255 = kinds.iter().filter(|k| *k == "ParameterNumberIsTooBig").count();
+            let nbig = kinds.iter().filter(|k| *k == "SmallIntegerIsTooBig").count();
+            let nzero = kinds.iter().filter(|k| *k == "ParameterNumberIsZero").count();
+            if kinds.iter().all(expected) && n255 == 1 && nbig == np - 255 && nzero == np - 255 {
+                obs.known(
+                    "C11-more-than-254-parameters",
+                    witness(json!({"np": np, "warnings": kinds.len()})),
+                );
+                return ChainResult::Reported;
+            }
+        }
+        obs.violation(
+            format!("warning-after-step-one:PL1->b1:{}", variant_name(&w1[0].kind)),
+            witness(json!({"warnings": format!("{:?}", w1.iter().take(5).collect::<Vec<_>>()), "pl1": clip(&pl1, 3000)})),
+        );
+        return ChainResult::Reported;
+    }
+    // b1 -> PL2
+    let o2 = guarded!("b1->PL2", tfm::algorithms::tfm_to_pl(&b1, 3, &|_| fmt));
+    let o2 = match o2 {
+        Ok(o) => o,
+        Err(e) => {
+            obs.violation("b1->PL2:fmt-error", witness(json!({"error": format!("{e:?}")})));
+            return ChainResult::Reported;
+        }
+    };
+    let pl2 = match o2.pl_data {
+        Ok(s) => s,
+        Err(e) => {
+            obs.violation(
+                format!("b1-rejected-by-reader:{}", variant_name(&e)),
+                witness(json!({"error": format!("{e:?}"), "b1": hex(&b1[..b1.len().min(1024)])})),
+            );
+            return ChainResult::Reported;
+        }
+    };
+    if !o2.error_messages.is_empty() {
+        let msgs: Vec<String> = o2.error_messages.iter().take(5).map(|m| m.tftopl_message()).collect();
+        let kind = match &o2.error_messages[0] {
+            tfm::algorithms::TfmToPlErrorMessage::DeserializationWarning(w) => variant_name(w),
+            tfm::algorithms::TfmToPlErrorMessage::ValidationWarning(w) => variant_name(w),
+        };
+        obs.violation(
+            format!("warning-after-step-one:b1->PL2:{kind}"),
+            witness(json!({"messages": msgs, "pl1": clip(&pl1, 3000)})),
+        );
+        return ChainResult::Reported;
+    }
+    // PL2 -> b2
+    let (b2, w2) = guarded!("PL2->b2", tfm::algorithms::pl_to_tfm(&pl2));
+    if !w2.is_empty() {
+        obs.violation(
+            format!("warning-after-step-one:PL2->b2:{}", variant_name(&w2[0].kind)),
+            witness(json!({"warnings": format!("{:?}", w2.iter().take(5).collect::<Vec<_>>())})),
+        );
+        return ChainResult::Reported;
+    }
+    // fixed point
+    if b2 != b1 {
+        let at = b1.iter().zip(b2.iter()).position(|(x, y)| x != y).unwrap_or(b1.len().min(b2.len()));
+        obs.violation(
+            "not-a-fixed-point:b2!=b1",
+            witness(json!({"first_difference_at_byte": at, "len_b1": b1.len(), "len_b2": b2.len(),
+                           "b1_header": hex(&b1[..b1.len().min(24)]), "b2_header": hex(&b2[..b2.len().min(24)]),
+                           "pl2": clip(&pl2, 2000)})),
+        );
+        return ChainResult::Reported;
+    }
+    let short_header = b0.len() >= 4 && u16::from_be_bytes([b0[2], b0[3]]) < 18;
+    let (s1, never_used) = strip_never_used(&pl1);
+    let (n1, n2) = (pl_normal_form(&s1, never_used > 0, short_header), pl_normal_form(&pl2, never_used > 0, short_header));
+    if n1 != n2 {
+        let at = n1.bytes().zip(n2.bytes()).position(|(x, y)| x != y).unwrap_or(n1.len().min(n2.len()));
+        let lo = at.saturating_sub(200);
+        let ctx = |s: &str| -> String {
+            let mut a = lo.min(s.len());
+            while !s.is_char_boundary(a) {
+                a -= 1;
+            }
+            let mut b = (at + 200).min(s.len());
+            while !s.is_char_boundary(b) {
+                b -= 1;
+            }
+            s[a..b].to_string()
+        };
+        obs.violation(
+            "pl2!=pl1",
+            witness(json!({"first_difference_at_byte": at, "pl1_around": ctx(&n1), "pl2_around": ctx(&n2),
+                           "never_used_comments_removed_from_pl1": never_used, "b0_header_shorter_than_18_words": short_header})),
+        );
+        return ChainResult::Reported;
+    }
+    if pl2 == pl1 {
+        obs.count("pl2_identical_to_pl1");
+    } else {
+        obs.count("pl2_equal_to_pl1_modulo_stated_normalisations");
+    }
+    // same font, through the crate's accessors
+    let f0 = guarded!("deserialize(b0)", tfm::File::deserialize(b0)).0;
+    let f1 = guarded!("deserialize(b1)", tfm::File::deserialize(&b1)).0;
+    let (f0, f1) = match (f0, f1) {
+        (Ok(a), Ok(b)) => (a, b),
+        (a, b) => {
+            obs.violation(
+                "reader-rejects-font-after-accepting-it",
+                witness(json!({"b0": format!("{:?}", a.err()), "b1": format!("{:?}", b.err())})),
+            );
+            return ChainResult::Reported;
+        }
+    };
+    let d = file_diff(&f0, &f1);
+    if let Some((what, _)) = d.first() {
+        obs.violation(
+            format!("font-changed(accessors):{what}"),
+            witness(json!({"differences": d.iter().take(8).collect::<Vec<_>>(), "pl1": clip(&pl1, 3000)})),
+        );
+        return ChainResult::Reported;
+    }
+    // same font, through our own reader
+    match (RawFont::parse(b0), RawFont::parse(&b1)) {
+        (Ok(r0), Ok(r1)) => {
+            obs.count("own_reader_compared");
+            let (s0, s1) = (r0.semantics(), r1.semantics());
+            let mut d = rawfont::diff(&s0, &s1);
+            if r0.header.len() < 18 {
+                obs.count("b0_header_shorter_than_18_words");
+                d.retain(|(w, _)| w != "header");
+            }
+            if let Some((what, _)) = d.first() {
+                obs.violation(
+                    format!("font-changed(own-reader):{what}"),
+                    witness(json!({"differences": d.iter().take(8).collect::<Vec<_>>(), "pl1": clip(&pl1, 3000)})),
+                );
+                return ChainResult::Reported;
+            }
+            // canonical form of the dimension tables (TFM format: sorted? no - but PLtoTF's
+            // sort_in produces ascending, duplicate-free tables with a zero first entry)
+            for (name, t) in [("width", &r1.width), ("height", &r1.height), ("depth", &r1.depth), ("italic", &r1.italic)] {
+                let canonical = t.first() == Some(&0) && t[1..].windows(2).all(|w| w[0] < w[1]);
+                if !canonical {
+                    obs.violation(
+                        format!("b1-not-canonical:{name}-table"),
+                        witness(json!({"table": t})),
+                    );
+                    return ChainResult::Reported;
+                }
+            }
+        }
+        (Err(e), _) => {
+            // our strict reader refuses b0 although TFtoPL accepted it without warning
+            obs.count("own_reader_rejects_b0");
+            if obs.verbose {
+                println!("own reader rejects b0: {e}");
+            }
+        }
+        (_, Err(e)) => {
+            obs.violation("b1-rejected-by-own-reader", witness(json!({"error": e})));
+            return ChainResult::Reported;
+        }
+    }
+    // same lig/kern behaviour, through the crate's compiler
+    let pair_cap = match obs.tier {
+        Tier::Quick => 2500,
+        Tier::Thorough => 12_000,
+    };
+    let rc = match catch(|| compare_runs(&f0, &f1, rng, pair_cap)) {
+        Ok(Ok(rc)) => rc,
+        Ok(Err(e)) => {
+            obs.inconclusive(format!("lig/kern comparison impossible: {e}"));
+            return ChainResult::Reported;
+        }
+        Err(p) => {
+            obs.repo_panic(&p, witness(json!({"step": "compile/run lig-kern"})));
+            return ChainResult::Reported;
+        }
+    };
+    if let Some(dif) = &rc.first_diff {
+        // Known finding C11-phantom-left-boundary-ligature. Trigger (own reader, on b1): the lig
+        // table of b1 is the single instruction [255, bchar, 0, 0] that PLtoTF writes to carry the
+        // boundary character when no instruction survives; TeX (§573, §1039) never executes it
+        // (skip byte > 128), and our own reader found the two fonts equal. Deviation model: the
+        // crate's reader takes the same word as the left-boundary entry point 0 and its compiler
+        // turns that redirect into the "phantom" ligature (boundary, bchar) -> char 0, so exactly
+        // the words that start with bchar after a left boundary change, and in b1 they start
+        // with a ligature item for character 0.
+        let single = RawFont::parse(&b1).ok().and_then(|r| {
+            if r.lig_kern.len() == 1 && r.lig_kern[0][0] == 255 && r.lig_kern[0][2] == 0 && r.lig_kern[0][3] == 0 {
+                Some(r.lig_kern[0][1])
+            } else {
+                None
+            }
+        });
+        if let Some(bch) = single {
+            let explained = rc.total_diffs as usize == rc.diffs.len()
+                && rc.diffs.iter().all(|d| {
+                    d.left_boundary
+                        && d.word.first() == Some(&bch)
+                        && matches!(d.b1.first(), Some(RunItem::Ligature(l)) if l.c == '\0' && l.includes_left_boundary)
+                        && !matches!(d.b0.first(), Some(RunItem::Ligature(_)))
+                });
+            if explained {
+                obs.known(
+                    "C11-phantom-left-boundary-ligature",
+                    witness(json!({"boundary_char": bch, "words_that_differ": rc.total_diffs, "first": dif, "pl1": clip(&pl1, 2000)})),
+                );
+                return ChainResult::Reported;
+            }
+        }
+        obs.violation(
+            "font-changed(run):ligkern",
+            witness(json!({"difference": dif, "pl1": clip(&pl1, 3000)})),
+        );
+        return ChainResult::Reported;
+    }
+    ChainResult::Held(ChainStats {
+        b0_len: b0.len(),
+        b1_equals_b0: b1 == b0,
+        never_used_comments: never_used,
+        run_words: rc.words,
+        replacements: rc.replacements,
+    })
+}
+
+// ------------------------------------------------------------------------------------------
+// semantics-preserving repacking of a font (our own writer): the normaliser must undo it
+
+fn repack(rng: &mut Rng, r: &RawFont) -> (RawFont, Vec<&'static str>) {
+    let mut f = r.clone();
+    let mut log = vec![];
+    // permute a dimension table (entry 0 stays) and possibly add duplicates / unused entries
+    fn permute(rng: &mut Rng, t: &mut Vec<i32>, cap: usize, dup: bool) -> Vec<usize> {
+        let n = t.len();
+        let mut order: Vec<usize> = (1..n).collect();
+        rng.shuffle(&mut order);
+        let mut new_t = vec![t[0]];
+        let mut map = vec![0usize; n];
+        for &old in &order {
+            map[old] = new_t.len();
+            new_t.push(t[old]);
+        }
+        if dup {
+            // duplicates and unused values, while the index still fits
+            while new_t.len() < cap && rng.chance(2, 3) {
+                let v = if n > 1 && rng.coin() { t[1 + rng.usize_below(n - 1)] } else { rng.range_i32(-(1 << 23), 1 << 23) };
+                new_t.push(v);
+            }
+        }
+        *t = new_t;
+        map
+    }
+    let what = rng.below(6);
+    if what == 0 || what == 5 {
+        let dup = rng.coin();
+        let map = permute(rng, &mut f.width, 256, dup);
+        for ci in f.char_info.iter_mut() {
+            ci[0] = map[ci[0] as usize] as u8;
+        }
+        log.push("widths-permuted");
+    }
+    if what == 1 || what == 5 {
+        let dup = rng.coin();
+        let mh = permute(rng, &mut f.height, 16, dup);
+        let md = permute(rng, &mut f.depth, 16, dup);
+        for ci in f.char_info.iter_mut() {
+            ci[1] = (mh[(ci[1] / 16) as usize] * 16 + md[(ci[1] % 16) as usize]) as u8;
+        }
+        log.push("heights-depths-permuted");
+    }
+    if what == 2 || what == 5 {
+        let dup = rng.coin();
+        let mi = permute(rng, &mut f.italic, 64, dup);
+        for ci in f.char_info.iter_mut() {
+            ci[2] = (mi[(ci[2] / 4) as usize] * 4) as u8 + ci[2] % 4;
+        }
+        log.push("italics-permuted");
+    }
+    if (what == 3 || what == 5) && !f.kern.is_empty() {
+        // permute the kern table (no entry is special) and add unused kerns
+        let n = f.kern.len();
+        let mut order: Vec<usize> = (0..n).collect();
+        rng.shuffle(&mut order);
+        let mut map = vec![0usize; n];
+        let mut nk = vec![];
+        for &old in &order {
+            map[old] = nk.len();
+            nk.push(f.kern[old]);
+        }
+        if rng.coin() {
+            nk.push(rng.range_i32(-(1 << 22), 1 << 22));
+        }
+        f.kern = nk;
+        for w in f.lig_kern.iter_mut() {
+            if w[0] <= 128 && w[2] >= 128 {
+                let idx = 256 * (w[2] as usize - 128) + w[3] as usize;
+                if idx < n {
+                    let ni = map[idx];
+                    w[2] = 128 + (ni / 256) as u8;
+                    w[3] = (ni % 256) as u8;
+                }
+            }
+        }
+        log.push("kerns-permuted");
+    }
+    if what == 4 || what == 5 {
+        // unused words: an extra extensible recipe, or lower-case header strings
+        if rng.coin() && f.exten.len() < 255 {
+            let c = f.bc.min(255) as u8;
+            if f.exists(c as u16) {
+                f.exten.push([0, 0, 0, c]);
+                log.push("unused-recipe");
+            }
+        }
+        if f.header.len() >= 18 {
+            let mut bytes: Vec<u8> = f.header.iter().flatten().copied().collect();
+            for k in [8usize, 48] {
+                let n = bytes[k] as usize;
+                let cap = if k == 8 { 39 } else { 19 };
+                for j in 0..n.min(cap) {
+                    bytes[k + 1 + j] = bytes[k + 1 + j].to_ascii_lowercase();
+                }
+            }
+            // junk in the padding after the strings is not part of the font either
+            for k in [8usize, 48] {
+                let n = bytes[k] as usize;
+                let cap = if k == 8 { 39 } else { 19 };
+                for j in n.min(cap)..cap {
+                    bytes[k + 1 + j] = b'X';
+                }
+            }
+            f.header = bytes.chunks(4).map(|c| [c[0], c[1], c[2], c[3]]).collect();
+            log.push("header-strings-lowercase-and-padding");
+        }
+    }
+    (f, log)
+}
+
+// ------------------------------------------------------------------------------------------
+// calibration of our own TFM reader against Knuth's recorded TFtoPL outputs
+
+const CALIBRATION_PAIRS: &[(&str, &str)] = &[
+    ("computer-modern/cmr10.tfm", "computer-modern/cmr10.plst"),
+    ("computer-modern/cmss8.tfm", "computer-modern/cmss8.plst"),
+    ("computer-modern/cmex10.tfm", "computer-modern/cmex10.plst"),
+    ("computer-modern/cminch.tfm", "computer-modern/cminch.plst"),
+    ("computer-modern/cmsy7.tfm", "computer-modern/cmsy7.plst"),
+    ("ctan/trip.tfm", "ctan/trip.plst"),
+    ("originals/many-ligatures.tfm", "originals/many-ligatures.plst"),
+    ("originals/font-dimen.tfm", "originals/font-dimen.plst"),
+    ("originals/boundarychar.tfm", "originals/boundarychar.plst"),
+    ("originals/boundarychar-unspecified.tfm", "originals/boundarychar-unspecified.plst"),
+    ("originals/boundarychar-noentrypoint.tfm", "originals/boundarychar-noentrypoint.plst"),
+    ("originals/many-entrypoints.tfm", "originals/many-entrypoints.plst"),
+    ("ctan/TheanoOldStyle-Bold-tlf-t1--base.tfm", "ctan/TheanoOldStyle-Bold-tlf-t1--base.plst"),
+    ("originals/orphan-lig-kerns-4.tfm", "originals/orphan-lig-kerns-5.plst"),
+    ("ctan/ArevSans-BoldOblique-3.tfm", "ctan/ArevSans-BoldOblique-4.plst"),
+    ("ctan/smfebsl10-1.tfm", "ctan/smfebsl10-2.plst"),
+    ("ctan/smfebsl10-3.tfm", "ctan/smfebsl10-4.plst"),
+    ("ctan/cprbn8t.tfm", "ctan/cprbn8t.plst"),
+    ("ctan/rashii2-1.tfm", "ctan/rashii2-2.plst"),
+    ("ctan/rashii2-3.tfm", "ctan/rashii2-4.plst"),
+    ("ctan/6vcr8r.tfm", "ctan/6vcr8r.plst"),
+    ("ctan/bxjatoucs-jis-1.tfm", "ctan/bxjatoucs-jis-2.plst"),
+    ("ctan/bxjatoucs-jis-3.tfm", "ctan/bxjatoucs-jis-4.plst"),
+    ("ctan/aebkri.tfm", "ctan/aebkri.plst"),
+    ("ctan/mt2exa.tfm", "ctan/mt2exa.plst"),
+    ("ctan/md-utree.tfm", "ctan/md-utree.plst"),
+    ("ctan/txbmi.tfm", "ctan/txbmi.plst"),
+    ("ctan/md-grbr7m.tfm", "ctan/md-grbr7m.plst"),
+    ("ctan/xyeuat12.tfm", "ctan/xyeuat12.plst"),
+];
+
+fn lig_op_byte(name: &str) -> Option<u8> {
+    Some(match name {
+        "LIG" => 0,
+        "LIG/" => 1,
+        "LIG/>" => 5,
+        "/LIG" => 2,
+        "/LIG>" => 6,
+        "/LIG/" => 3,
+        "/LIG/>" => 7,
+        "/LIG/>>" => 11,
+        _ => return None,
+    })
+}
+
+/// Compare our reading of `tfm` with what Knuth's TFtoPL recorded in `pl`. Returns mismatches.
+fn calibrate_pair(tfm_bytes: &[u8], pl: &str) -> Result<(usize, Vec<String>), String> {
+    use plread::*;
+    let raw = RawFont::parse(tfm_bytes)?;
+    let sem = raw.semantics();
+    let items = parse(pl);
+    let mut bad = vec![];
+    let mut seen_chars: BTreeSet<u8> = BTreeSet::new();
+    let mut checked = 0usize;
+    let mut params: Vec<i32> = vec![];
+    for l in lists(&items) {
+        let w = words(l);
+        match w.first().copied() {
+            Some("CHARACTER") => {
+                let Some((c, _)) = byte_value(&w[1..]) else {
+                    bad.push(format!("unreadable CHARACTER head {w:?}"));
+                    continue;
+                };
+                seen_chars.insert(c);
+                let Some(cs) = sem.chars.get(&c) else {
+                    bad.push(format!("PL lists character {c} which our reader says does not exist"));
+                    continue;
+                };
+                let (mut wd, mut ht, mut dp, mut ic) = (None, 0, 0, 0);
+                let mut next_larger = None;
+                let mut varchar: Option<[u8; 4]> = None;
+                let mut program: Option<BTreeMap<u8, rawfont::Op>> = None;
+                for sub in lists(l) {
+                    let sw = words(sub);
+                    match sw.first().copied() {
+                        Some("CHARWD") => wd = fix_value(&sw[1..]),
+                        Some("CHARHT") => ht = fix_value(&sw[1..]).unwrap_or(i32::MIN),
+                        Some("CHARDP") => dp = fix_value(&sw[1..]).unwrap_or(i32::MIN),
+                        Some("CHARIC") => ic = fix_value(&sw[1..]).unwrap_or(i32::MIN),
+                        Some("NEXTLARGER") => next_larger = byte_value(&sw[1..]).map(|v| v.0),
+                        Some("VARCHAR") => {
+                            let mut r = [0u8; 4];
+                            for piece in lists(sub) {
+                                let pw = words(piece);
+                                let v = byte_value(&pw[1..]).map(|v| v.0).unwrap_or(0);
+                                match pw.first().copied() {
+                                    Some("TOP") => r[0] = v,
+                                    Some("MID") => r[1] = v,
+                                    Some("BOT") => r[2] = v,
+                                    Some("REP") => r[3] = v,
+                                    _ => {}
+                                }
+                            }
+                            varchar = Some(r);
+                        }
+                        Some("COMMENT") => {
+                            // the character's lig/kern program, instruction by instruction
+                            let mut m = BTreeMap::new();
+                            for ins in lists(sub) {
+                                let iw = words(ins);
+                                let Some(name) = iw.first().copied() else { continue };
+                                if name == "KRN" {
+                                    if let (Some((r, n)), true) = (byte_value(&iw[1..]), iw.len() >= 5) {
+                                        if let Some(v) = fix_value(&iw[1 + n..]) {
+                                            m.entry(r).or_insert(rawfont::Op::Kern(v));
+                                        }
+                                    }
+                                } else if let Some(op) = lig_op_byte(name) {
+                                    if let Some((r, n)) = byte_value(&iw[1..]) {
+                                        if let Some((z, _)) = byte_value(&iw[1 + n..]) {
+                                            m.entry(r).or_insert(rawfont::Op::Lig(op, z));
+                                        }
+                                    }
+                                }
+                            }
+                            program = Some(m);
+                        }
+                        _ => {}
+                    }
+                }
+                checked += 1;
+                if wd.is_none() || cs.wd != wd {
+                    bad.push(format!("char {c}: width {:?}, PL says {:?}", cs.wd, wd));
+                }
+                if cs.ht != Some(ht) {
+                    bad.push(format!("char {c}: height {:?}, PL says {ht}", cs.ht));
+                }
+                if cs.dp != Some(dp) {
+                    bad.push(format!("char {c}: depth {:?}, PL says {dp}", cs.dp));
+                }
+                if cs.ic != Some(ic) {
+                    bad.push(format!("char {c}: italic {:?}, PL says {ic}", cs.ic));
+                }
+                match (&cs.tag, next_larger, varchar, program) {
+                    (rawfont::Tag::None, None, None, None) => {}
+                    (rawfont::Tag::List(n), Some(m), None, None) if *n == m => {}
+                    (rawfont::Tag::Ext(Some(r)), None, Some(v), None) => {
+                        // TFtoPL prints REP as the character itself when the recipe's rep does not
+                        // exist (TFtoPL §87); the corpus fonts used here are clean
+                        if *r != v {
+                            bad.push(format!("char {c}: recipe {r:?}, PL says {v:?}"));
+                        }
+                    }
+                    (rawfont::Tag::Lig(p), None, None, Some(q)) => {
+                        if *p != q {
+                            bad.push(format!("char {c}: lig/kern pair map differs from the COMMENT in the PL: ours {p:?}, PL {q:?}"));
+                        }
+                    }
+                    (t, n, v, p) => bad.push(format!("char {c}: tag {t:?}, PL says nextlarger={n:?} varchar={v:?} program={}", p.is_some())),
+                }
+            }
+            Some("FONTDIMEN") => {
+                for sub in lists(l) {
+                    let sw = words(sub);
+                    if sw.first().copied() == Some("COMMENT") {
+                        continue;
+                    }
+                    // named or PARAMETER D n R v: the value is always the last two words
+                    if sw.len() >= 3 {
+                        if let Some(v) = fix_value(&sw[sw.len() - 2..]) {
+                            params.push(v);
+                        }
+                    }
+                }
+            }
+            Some("CHECKSUM") => {
+                if u32_value(&w[1..]) != Some(u32::from_be_bytes(sem.checksum)) {
+                    bad.push(format!("checksum {:?}, PL says {w:?}", sem.checksum));
+                }
+            }
+            Some("DESIGNSIZE") => {
+                if fix_value(&w[1..]) != Some(i32::from_be_bytes(sem.design_size)) {
+                    bad.push(format!("design size {:?}, PL says {w:?}", sem.design_size));
+                }
+            }
+            Some("BOUNDARYCHAR") => {
+                if byte_value(&w[1..]).map(|v| v.0) != sem.bchar {
+                    bad.push(format!("boundary char {:?}, PL says {w:?}", sem.bchar));
+                }
+            }
+            _ => {}
+        }
+    }
+    let ours: BTreeSet<u8> = sem.chars.keys().copied().collect();
+    if ours != seen_chars {
+        bad.push(format!("characters: ours {ours:?}, PL {seen_chars:?}"));
+    }
+    if params != sem.params {
+        bad.push(format!("params: ours {:?}, PL {:?}", sem.params, params));
+    }
+    Ok((checked, bad))
+}
+
+// ------------------------------------------------------------------------------------------
+
+fn report(obs: &mut Obs, class: &str, r: ChainResult, sample: &dyn Fn() -> Value) {
+    match r {
+        ChainResult::Skipped(why) => obs.skip(&format!("{class}:{why}")),
+        ChainResult::Reported => obs.count(&format!("{class}:reported")),
+        ChainResult::Held(s) => {
+            obs.count(&format!("{class}:held"));
+            obs.count("chains_held");
+            obs.add("run_words_compared", s.run_words);
+            if s.b1_equals_b0 {
+                obs.count("b0_already_canonical");
+            } else {
+                obs.count("b0_not_canonical(normalisation_changed_bytes)");
+            }
+            if s.never_used_comments > 0 {
+                obs.count("pl1_had_never_used_comments");
+            }
+            if s.replacements > 0 {
+                obs.count("fonts_with_ligkern_replacements");
+            }
+            if obs.wants_sample() {
+                let mut v = sample();
+                if let Value::Object(m) = &mut v {
+                    m.insert("b0_len".into(), json!(s.b0_len));
+                    m.insert("b1_equals_b0".into(), json!(s.b1_equals_b0));
+                    m.insert("words_run".into(), json!(s.run_words));
+                    m.insert("pairs_with_replacement".into(), json!(s.replacements));
+                }
+                obs.sample(v);
+            }
+        }
+    }
+}
+
 impl Monitor for M {
     fn id(&self) -> &'static str {
         "C11"
     }
+
     fn rule(&self) -> String {
-        "not built yet".into()
+        "b0 ranges over (corpus-tfm) every corpus .tfm, (corpus-pl) pl_to_tfm of every corpus property list, (gen) \
+         pl_to_tfm of generated property lists (0..256 characters, <=15/15/63 distinct non-zero heights/depths/italics, \
+         lig tables of 1..1400 steps with several labels per chain, SKIPs, entry points above 255, boundary \
+         characters and boundary programs, NEXTLARGER chains, VARCHAR recipes, 0..30 parameters, extra header words), \
+         (repack) the same fonts re-packed by our own writer without changing their meaning (permuted/duplicated \
+         dimension and kern tables, unused entries, lower-case header strings, junk in string padding), each in one of the \
+         three character display formats. Fonts for which the first TFM->PL step (or, for generated lists, the PL->TFM \
+         step that makes b0) raises a warning are skipped and counted. A case is non-trivial when the whole chain ran; \
+         distinct = hash of b0 and the display format."
+            .into()
     }
+
     fn assumptions(&self) -> Vec<String> {
-        vec![]
+        vec![
+            "warning-free = tfm_to_pl(b0) returns a property list and an empty error_messages".into(),
+            "PL2 == PL1 is required after removing from PL1 the `(COMMENT THIS PART OF THE PROGRAM IS NEVER USED! ..)` lists: TFtoPL reports unreachable lig/kern steps as a comment without a warning and a comment cannot survive PLtoTF (Knuth's programs behave the same)".into(),
+            "header: the two strings are compared upper-cased (TFtoPL §52 upper-cases them without a warning); the seven-bit-safe flag is not compared (PLtoTF §133 recomputes it); strings/face are compared only if b0's header has the 18 standard words (otherwise PLtoTF writes its defaults)".into(),
+            "a lig tag whose program has no instruction is the same as no tag; the right boundary character is compared only if some reachable instruction names it".into(),
+            "lig/kern `run` is compared on all 256 one-letter words, all ordered pairs over the characters that exist or are named in either program (if more than the tier's cap: all pairs with a replacement + a sample), and sampled words of 3..6 letters, each with and without the left boundary; the own-reader pair map covers every (left, right) pair exactly".into(),
+            "lossy compression (more than 15/15/63/255 distinct values) is excluded by construction of the generated fonts (C17's subject)".into(),
+        ]
     }
-    fn phases(&self, _tier: Tier) -> Vec<Phase> {
-        vec![]
+
+    fn phases(&self, tier: Tier) -> Vec<Phase> {
+        let c = corpus();
+        vec![
+            Phase::new("corpus-tfm", c.tfm.len().max(1) as u64 * 3).batch(2),
+            Phase::new("corpus-pl", c.pl.len().max(1) as u64 * 3).batch(2),
+            Phase::new("gen", tier.pick(3_000, 300_000)).batch(8),
+            Phase::new("repack", tier.pick(2_000, 150_000)).batch(8),
+        ]
     }
-    fn run_case(&self, _phase: &str, _idx: u64, _rng: &mut Rng, _obs: &mut Obs) {}
+
+    fn floors(&self, tier: Tier) -> Vec<(&'static str, u64)> {
+        let q = tier == Tier::Quick;
+        vec![
+            ("chains_held", if q { 2_500 } else { 250_000 }),
+            ("corpus-tfm:held", 90),
+            ("corpus-pl:held", 60),
+            ("gen:held", if q { 1_500 } else { 150_000 }),
+            ("repack:held", if q { 1_000 } else { 75_000 }),
+            ("own_reader_compared", if q { 2_500 } else { 250_000 }),
+            ("b0_not_canonical(normalisation_changed_bytes)", if q { 800 } else { 60_000 }),
+            ("fonts_with_ligkern_replacements", if q { 1_000 } else { 100_000 }),
+            ("run_words_compared", if q { 2_000_000 } else { 200_000_000 }),
+            ("feature:entrypoint_above_255", if q { 100 } else { 10_000 }),
+            ("feature:several_labels_per_chain", if q { 300 } else { 30_000 }),
+            ("feature:boundary_char", if q { 300 } else { 30_000 }),
+            ("feature:left_boundary_program", if q { 100 } else { 10_000 }),
+            ("feature:next_larger", if q { 300 } else { 30_000 }),
+            ("feature:varchar", if q { 300 } else { 30_000 }),
+            ("feature:256_chars", if q { 50 } else { 5_000 }),
+            ("feature:no_chars", if q { 10 } else { 1_000 }),
+            ("feature:skip", if q { 50 } else { 5_000 }),
+        ]
+    }
+
+    fn calibrate(&self, obs: &mut Obs) {
+        let c = corpus();
+        for p in &c.problems {
+            obs.inconclusive(format!("corpus file unreadable: {p}"));
+        }
+        if c.tfm.len() < 90 || c.pl.len() < 95 {
+            obs.inconclusive(format!("corpus not found or incomplete under {}", c.root.display()));
+            return;
+        }
+        // our TFM reader against Knuth's recorded TFtoPL outputs
+        let mut pairs = 0;
+        for (t, p) in CALIBRATION_PAIRS {
+            let tb = c.tfm.iter().find(|(n, _)| n == t);
+            let pt = c.pl.iter().find(|(n, _)| n == p);
+            let (Some((_, tb)), Some((_, pt))) = (tb, pt) else {
+                obs.count("calibration_pair_missing");
+                continue;
+            };
+            match calibrate_pair(tb, pt) {
+                Ok((n, bad)) => {
+                    pairs += 1;
+                    obs.add("calibration_characters_checked", n as u64);
+                    if !bad.is_empty() {
+                        obs.inconclusive(format!(
+                            "own TFM reader disagrees with Knuth's recorded TFtoPL output for {t}: {}",
+                            bad.iter().take(3).cloned().collect::<Vec<_>>().join("; ")
+                        ));
+                    }
+                }
+                Err(e) => obs.inconclusive(format!("own TFM reader rejects corpus font {t}: {e}")),
+            }
+        }
+        obs.add("calibration_pairs", pairs);
+        if pairs < 20 {
+            obs.inconclusive(format!("only {pairs} calibration pairs found"));
+        }
+        // our writer is the inverse of our reader on every corpus font it accepts
+        for (n, b) in &c.tfm {
+            if let Ok(r) = RawFont::parse(b) {
+                obs.count("calibration_writer_roundtrips");
+                if r.to_bytes() != *b {
+                    obs.inconclusive(format!("own TFM writer does not reproduce {n}"));
+                }
+            }
+        }
+    }
+
+    fn run_case(&self, phase: &str, idx: u64, rng: &mut Rng, obs: &mut Obs) {
+        let c = corpus();
+        match phase {
+            "corpus-tfm" => {
+                if c.tfm.is_empty() {
+                    obs.inconclusive("no corpus fonts");
+                    return;
+                }
+                let f = (idx / 3) as usize % c.tfm.len();
+                let (name, b0) = &c.tfm[f];
+                let how = || json!({"corpus_font": name});
+                obs.nontrivial(&(b0, idx % 3));
+                let r = chain(obs, rng, b0, idx, &how);
+                report(obs, "corpus-tfm", r, &how);
+            }
+            "corpus-pl" => {
+                if c.pl.is_empty() {
+                    obs.inconclusive("no corpus property lists");
+                    return;
+                }
+                let f = (idx / 3) as usize % c.pl.len();
+                let (name, text) = &c.pl[f];
+                let how = || json!({"b0 = pl_to_tfm(corpus_pl)": name});
+                let (b0, w) = match catch(|| tfm::algorithms::pl_to_tfm(text)) {
+                    Ok(v) => v,
+                    Err(p) => {
+                        // a panic while *making* b0 is C10's subject, not a C11 observation
+                        obs.skip(&format!("corpus-pl:making-b0-panics:{}", p.repo_function));
+                        return;
+                    }
+                };
+                if !w.is_empty() {
+                    obs.skip("corpus-pl:pl-has-warnings");
+                    return;
+                }
+                obs.nontrivial(&(&b0, idx % 3));
+                let r = chain(obs, rng, &b0, idx, &how);
+                report(obs, "corpus-pl", r, &how);
+            }
+            "gen" | "repack" => {
+                let (text, feat) = gen::gen_font(rng, idx);
+                let (b0, w) = match catch(|| tfm::algorithms::pl_to_tfm(&text)) {
+                    Ok(v) => v,
+                    Err(p) => {
+                        obs.skip(&format!("{phase}:making-b0-panics:{}", p.repo_function));
+                        return;
+                    }
+                };
+                if !w.is_empty() {
+                    obs.skip(&format!("{phase}:generated-pl-has-warnings:{}", variant_name(&w[0].kind)));
+                    return;
+                }
+                let (b0, packlog) = if phase == "repack" {
+                    match RawFont::parse(&b0) {
+                        Ok(r) => {
+                            let (r2, log) = repack(rng, &r);
+                            (r2.to_bytes(), log)
+                        }
+                        Err(e) => {
+                            obs.violation("generated-b0-rejected-by-own-reader", json!({"error": e, "pl": clip(&text, 3000)}));
+                            return;
+                        }
+                    }
+                } else {
+                    (b0, vec![])
+                };
+                let how = || json!({"generated_pl": clip(&text, 6000), "repacked": packlog});
+                obs.nontrivial(&(&b0, idx % 3));
+                let r = chain(obs, rng, &b0, idx, &how);
+                if matches!(r, ChainResult::Held(_)) {
+                    // feature counters only for fonts that went through the whole chain
+                    if let Ok(raw) = RawFont::parse(&b0) {
+                        let redirected = (0..=255u16).any(|ch| {
+                            matches!(raw.info(ch), Some(i) if i[2] % 4 == 1
+                                && matches!(raw.lig_kern.get(i[3] as usize), Some(w) if w[0] > 128))
+                        });
+                        if redirected {
+                            obs.count("feature:entrypoint_above_255");
+                        }
+                        if raw.lig_kern.len() > 255 {
+                            obs.count("feature:more_than_255_instructions");
+                        }
+                    }
+                    if feat.max_labels_per_chain >= 2 {
+                        obs.count("feature:several_labels_per_chain");
+                    }
+                    if feat.boundary_char {
+                        obs.count("feature:boundary_char");
+                    }
+                    if feat.left_boundary_program {
+                        obs.count("feature:left_boundary_program");
+                    }
+                    if feat.next_larger > 0 {
+                        obs.count("feature:next_larger");
+                    }
+                    if feat.varchar > 0 {
+                        obs.count("feature:varchar");
+                    }
+                    if feat.chars == 256 {
+                        obs.count("feature:256_chars");
+                    }
+                    if feat.chars == 0 {
+                        obs.count("feature:no_chars");
+                    }
+                    if feat.skips > 0 {
+                        obs.count("feature:skip");
+                    }
+                    if feat.wild_ligs {
+                        obs.count("feature:chained_ligatures");
+                    }
+                    for l in &packlog {
+                        obs.count(&format!("repack:{l}"));
+                    }
+                }
+                let sample = || json!({"generated": {"chars": feat.chars, "lig_steps": feat.lig_instructions, "labels": feat.labels,
+                    "boundary_char": feat.boundary_char, "next_larger": feat.next_larger, "varchar": feat.varchar, "params": feat.params},
+                    "repacked": packlog});
+                report(obs, phase, r, &sample);
+            }
+            other => obs.inconclusive(format!("unknown phase {other}")),
+        }
+    }
 }
